@@ -226,4 +226,20 @@ for sz, nm in ((4, 5), (1, 6)):
       unwind=nm * sz + 20, object_bits=10, replay=True, functions=['_bsearch_s_chk'], timeout=900,
       bound='sorted arrays of nmemb <= %d, element size %d, all keys' % (nm, sz))
 
+# ---- C17: arithmetic clauses of normalization / case folding, full domain
+UNI_SRC = ['src/str/strnlen_s.c', 'src/wchar/wcsnlen_s.c', 'src/extwchar/towctrans.c']
+J('C.unicode.composite_hangul', ['C17'], 'C', 'contracts/extwchar/unicode.spec.c', sources=UNI_SRC + ['src/extwchar/towfc_s.c'], defines=['PART=1'],
+  functions=['_composite_cp'], timeout=900, unwind=3, object_bits=12,
+  note='all 2^32 x 2^32 (cp, cp2) with a Hangul L / syllable or an out-of-range value on the left')
+J('C.unicode.decomp_hangul', ['C17'], 'C', 'contracts/extwchar/unicode.spec.c', sources=UNI_SRC + ['src/extwchar/towfc_s.c'], defines=['PART=2'],
+  functions=['_decomp_s', '_decomp_hangul_s', '_composite_cp'], timeout=900, unwind=4, object_bits=12,
+  note='all 11172 Hangul syllables, symbolic; round trip through _composite_cp')
+J('C.unicode.iswfc_towfc', ['C17', 'C01'], 'C', 'contracts/extwchar/unicode.spec.c', sources=['src/str/strnlen_s.c'], defines=['PART=3', '__NO_CTYPE'],
+  functions=['iswfc', '_towfc_s_chk', '_towfc_single'], timeout=900, unwind=120,
+  note='all 2^32 code points; loops over the constant folding tables are unwound to their constant length',
+  assumptions=['towlower/iswupper (libc / towctrans.c) results are taken as they are; only the count agreement is checked'])
+J('C.unicode.decomp_index', ['C17', 'C01', 'C02'], 'C', 'contracts/extwchar/unicode.spec.c', sources=UNI_SRC + ['src/extwchar/towfc_s.c'], defines=['PART=4'],
+  functions=['_decomp_s', '_decomp_canonical_s'], timeout=1800, unwind=24, mem_gb=12, tiers=('thorough',),
+  note='every cp <= U+10FFFF, every dmax 1..20: table indices in bounds, writes inside dmax')
+
 BY_NAME = {j.name: j for j in JOBS}
